@@ -1,9 +1,51 @@
 PROPERTY = "C12"
 LEVEL = "proof"
-FUNCTIONS = ["stdio_read_at", "stdio_write_at", "write_all"]
-TRUSTED = []
-ASSUMPTIONS = []
-
+FUNCTIONS = [
+    "stdio_read_at", "stdio_write_at",                       # io/file.c
+    "precache", "file_get_buffered_data", "file_advance_buffer",  # io/istream.c
+    "write_all", "realize_sparse", "file_append", "file_flush",   # io/ostream.c
+    "sqfs_istream_read", "sqfs_istream_skip", "sqfs_istream_splice",  # io/stream_api.c
+    "record_to_memory",                                      # lib/tar
+    "istream_get_line (bounded)",                            # lib/util/get_line.c
+]
+TRUSTED = [
+    "pread/pwrite/read/write(2): return any count 1..n, 0, or -1 with any errno at every call; "
+    "transfer exactly the returned number of bytes, in order, at the given (p)offset/position "
+    "(harness/C12/read_at.c, write_at.c, c12_write_env.h, c12_read_env.h)",
+    "EINTR may be returned any finite number of times (termination measure only; safety and the "
+    "postconditions hold for every sequence)",
+    "fsync(2) / sqfs_native_file_seek: arbitrary success or failure (flush.c, realize_sparse.c)",
+    "memmove/memcpy semantics on payload buffers: checking stubs (ranges r_ok/w_ok, the tracked "
+    "stream byte moves with the range); CBMC malloc/calloc/free model with every allocation allowed to fail",
+    "sqfs_istream_t used by the stream API = contract c12_istream_env.h (any view length >= 1, EOF only "
+    "when nothing is left, any negative error) - proved for the file istream by get_buffered/advance/precache; "
+    "other istream implementations (xfrm, tar record streams) are C15/C07",
+    "isspace() = C locale (table behind glibc's macro) in the get_line harness",
+]
+ASSUMPTIONS = [
+    "termination of the retry loops is proved only for a finite number of EINTR results (an endless EINTR "
+    "sequence makes the real loops spin, as intended by the code)",
+    "object sizes are capped by CBMC's 2^47-byte object limit (transfer sizes n, hole sizes are otherwise "
+    "arbitrary 64-bit values); file offsets stay in the off_t range (offset + n <= INT64_MAX)",
+    "contents are tracked by placement of one arbitrary stream position (where did stream byte w go, how "
+    "often) - payload bytes are never materialised; valid because none of the proved functions branches on "
+    "payload (get_line, which does, is checked with a fully symbolic text instead)",
+    "file_append/file_flush and realize_sparse are verified against the contracts of write_all / "
+    "realize_sparse (stubs in c12_ostream_contracts.h, each clause proved by the callee's harness); "
+    "record_to_memory against the contracts proved in api_read/api_skip",
+    "istream_get_line is a bounded stand-in: all texts up to the stated length over the full byte alphabet "
+    "except NUL, every chunking, compared with the chunk-free spec spec/getline_spec.h; its heap block is a "
+    "fixed pool (realloc never moves it)",
+    "fsync interrupted by EINTR is reported as an I/O error by file_flush (not part of the property: only "
+    "read/write/pread/pwrite are named)",
+    "not covered here: lib/sqfs/src/io/unix.c (open/seek wrappers, loop-free), lib/common/src/stream.c, "
+    "tar read_header/iterator (C07), xfrm istream/ostream (C15); whole-program exit status",
+    "Windows branches are preprocessed away",
+]
+EXPLANATION = ("every syscall is replaced by a contract that may return ANY permitted outcome at EVERY call and owns a "
+               "ghost transfer cursor; the retry loops carry loop contracts (done + left = total, k-th call issued at "
+               "base + done), so the proofs are unbounded in the number and size of short transfers and EINTRs; "
+               "callers are verified against the contracts of their callees")
 
 def _h(name, loops=None, **kw):
     d = dict(name=name, file=name + ".c", label="proved", solver="cadical",
@@ -22,6 +64,21 @@ def _h(name, loops=None, **kw):
 _FP_IN = {"get_buffered_data": "c12_in_get", "advance_buffer": "c12_in_advance",
           "get_filename": "c12_in_filename"}
 
+
+
+def _gl(n, f, tier):
+    return dict(id="len%d_f%d" % (n, f), defines={"LEN": n, "FLAGS": f},
+                unwind=n + 2, tier=tier)
+
+
+# istream_get_line: text length x flag value (LTRIM=1, RTRIM=2, SKIP_EMPTY=4),
+# one run each; the trimming flags are what makes a run expensive
+_GL_CASES = ([_gl(n, f, "quick") for f in range(8) for n in (1, 2, 3)] +
+             [_gl(n, f, "quick") for f in (0, 4) for n in (4, 5)] +
+             [_gl(4, 7, "quick")] +
+             [_gl(4, f, "thorough") for f in (1, 2, 3, 5, 6)] +
+             [_gl(n, f, "thorough") for f in (0, 4) for n in (6, 7)])
+
 HARNESSES = [
     _h("read_at", ["stdio_read_at"]),
     _h("write_at", ["stdio_write_at"]),
@@ -35,13 +92,10 @@ HARNESSES = [
        fp=dict(_FP_IN, append="c12_out_append")),
     _h("record", malloc_fail=True, flags=["--memory-leak-check"],
        fp={"get_filename": "c12_in_filename"}),
-    dict(name="get_line", file="get_line.c", label="bounded(text<=5)",
-         flags=["--memory-leak-check"], timeout=600,
-         fp={"get_buffered_data": "c12_gl_get", "advance_buffer": "c12_gl_advance"},
-         cases=[dict(id="len%d" % n, defines={"LEN": n}, unwind=n + 3,
-                     tier="quick" if n <= 5 else "thorough",
-                     **({} if n <= 5 else {"label": "bounded(text<=8)"}))
-                for n in range(1, 9)]),
+    dict(name="get_line", file="get_line.c",
+         label="bounded(text<=3 all flags; <=5 flags 0/4; <=4 flags 7)",
+         timeout=600, cases=_GL_CASES,
+         fp={"get_buffered_data": "c12_gl_get", "advance_buffer": "c12_gl_advance"}),
     # write_all is replaced by its contract (proved by the write_all harness)
     # in a pass of its own, before the loop-contract pass would inline it
     _h("realize_sparse", ["realize_sparse"], malloc_fail=True,
